@@ -41,7 +41,13 @@ func (b PBatch) Last() int64 {
 // Blob records one compression performed by the encoder (the model's decompression oracle).
 type Blob struct{ Code int; Compressed, Plain []byte }
 
-type Encoder struct{ Blobs []Blob }
+// SplitRec > 0: in a compressed v2 batch the codec's writer is flushed after that many
+// records, so that the compressed payload consists of several blocks (xerial blocks, lz4 blocks,
+// gzip / zstd flush points).
+type Encoder struct {
+	Blobs    []Blob
+	SplitRec int
+}
 
 func putVarint(b *bytes.Buffer, v int64) {
 	u := uint64((v << 1) ^ (v >> 63))
@@ -76,10 +82,25 @@ func b32(b *bytes.Buffer, x []byte) {
 	b.Write(x)
 }
 
-func (e *Encoder) compress(code int, plain []byte) []byte {
+func (e *Encoder) compress(code int, plain []byte) []byte { return e.compressParts(code, plain, 0) }
+
+// compressParts compresses plain; split > 0: the writer is flushed after plain[:split].
+func (e *Encoder) compressParts(code int, plain []byte, split int) []byte {
 	var out bytes.Buffer
 	w := compress.Compression(code).Codec().NewWriter(&out)
-	if _, err := w.Write(plain); err != nil {
+	if split > 0 && split < len(plain) {
+		if _, err := w.Write(plain[:split]); err != nil {
+			panic(err)
+		}
+		if f, ok := w.(interface{ Flush() error }); ok {
+			if err := f.Flush(); err != nil {
+				panic(err)
+			}
+		}
+		if _, err := w.Write(plain[split:]); err != nil {
+			panic(err)
+		}
+	} else if _, err := w.Write(plain); err != nil {
 		panic(err)
 	}
 	if err := w.Close(); err != nil {
@@ -138,12 +159,16 @@ func (e *Encoder) Batch(b PBatch) []byte {
 	var out bytes.Buffer
 	if b.Fmt == 2 {
 		var recs bytes.Buffer
-		for _, r := range b.Recs {
+		split := 0
+		for i, r := range b.Recs {
+			if i == e.SplitRec {
+				split = recs.Len()
+			}
 			recs.Write(encRecord(b.Base, b.Ts, r))
 		}
 		payload := recs.Bytes()
 		if b.Codec != 0 {
-			payload = e.compress(b.Codec, payload)
+			payload = e.compressParts(b.Codec, payload, split)
 		}
 		putI(&out, 8, b.Base)
 		putI(&out, 4, int64(49+len(payload)))
